@@ -74,6 +74,7 @@ def rule_remove(R):
                  "identifier of that very packet (found arm %s, id = %s)" % (list(ACK_ARMS), arms, show(idt)), where=c.span)
     R.exact("remove/caller", ncall, 4, "call sites of the retained removal")
     outq.clause_removal_index(R, "remove/removes-the-acknowledged-entry", rem, "retained")
+    outq.clause_removal_result(R, "remove/reports-removal", rem, "retained")
 
     # clear() only from the session reset; reset only from the handshake on session_present == false
     rst = outq.session_reset(f)
@@ -329,7 +330,14 @@ def rule_final(R):
     clause_remove_then_report(R, "final", arms=("PubAck",))
 
 
+def rule_limit(R):
+    """replay is gated by the broker's Maximum Packet Size: the gate must use the limit of the connection the replay
+    runs on (shared with C14) -- a stale, smaller limit refuses the retained packet on every later connection"""
+    roles.clause_negotiated_per_connection(R, "limit", ("maximum_packet_size",))
+
+
 def run(R):
+    R.rule("limit", rule_limit)
     R.rule("final", rule_final)
     R.rule("replay", rule_replay)
     R.rule("arena", rule_arena)
